@@ -1036,4 +1036,7 @@ fn main() {
     let mut k = String::new();
     skel::skeletons(&mut k);
     write_if_changed(&format!("{}/Skel.lean", outdir), &k);
+    let mut l = String::new();
+    skel::loops(&mut l);
+    write_if_changed(&format!("{}/Loops.lean", outdir), &l);
 }
